@@ -4,6 +4,7 @@ sys.path.insert(0, os.path.dirname(os.path.dirname(os.path.abspath(__file__))))
 from engine import build, runner, cdf
 from engine.common import Check
 from engine.prog import Prog
+from engine.bfs import emit_std
 from engine.model import data as D
 
 BASES = {
@@ -42,18 +43,30 @@ def enddef_op(kind, k):
 DELTAS = ['att_small', 'att_large', 'fixed_var', 'rec_var', 'both', 'realign', 'att_large_rec']
 
 
-def gen(fmts, nps, units, nrecs_list, bases, aligns, reps=(1, 2)):
+def gen(fmts, nps, units, nrecs_list, bases, aligns, reps=(1, 2), pres=('coll',)):
     progs = []
-    for fmt, bname, al, nrec, dk, rep, np, unit in itertools.product(fmts, bases, aligns, nrecs_list, DELTAS, reps, nps, units):
+    for fmt, bname, al, nrec, dk, rep, np, unit, pre in itertools.product(fmts, bases, aligns, nrecs_list, DELTAS, reps, nps, units, pres):
         dims, vars_ = BASES[bname]
+        if pre == 'indep_div' and (np < 2 or not any(d[1] is None for d in dims)): continue
         if nrec and not any(d[1] is None for d in dims) and nrec != nrecs_list[0]: continue
         env = {'PNETCDF_VERIF_MOVE_UNIT': str(unit)} if unit else None
-        p = Prog('R-f%d-%s-%s-r%d-%s-x%d-np%d-u%s' % (fmt, bname, al, nrec, dk, rep, np, unit), np, fmt, ALIGN[al], env)
+        p = Prog('R-f%d-%s-%s-r%d-%s-x%d-np%d-u%s%s' % (fmt, bname, al, nrec, dk, rep, np, unit, '' if pre == 'coll' else '-' + pre), np, fmt, ALIGN[al], env)
         for n, l in dims: p.do(dict(op='def_dim', name=n, len=l))
         for n, t, dd in vars_: p.do(dict(op='def_var', name=n, xtype=t, dims=dd))
         p.do(dict(op='_enddef', h_minfree=0, v_align=0, v_minfree=3000, r_align=0) if al == 'gap' else dict(op='enddef'))
         p.write_all(nrec=nrec if nrec else 1) if nrec or not any(d[1] is None for d in dims) else [p.do(dict(op='put', v=i, start=[0] * len(v[2]), count=p.m.shape(i), vals=[(i * 5 + k) % 90 + 1 for k in range(p.m.inner(i))], coll=1, mem=D.XT_MEM[v[1]])) for i, v in enumerate(vars_) if not p.m.isrec(i)]
         for k in range(rep):
+            if pre == 'indep_div':
+                # independent data mode: only the higher ranks append records, so the in-memory record counts differ between the
+                # processes when define mode is entered directly from independent mode
+                rv = next(i for i in range(len(p.m.vars)) if p.m.isrec(i))
+                sh = p.m.shape(rv); inner = p.m.inner(rv); t = p.m.vars[rv]['xtype']
+                p.do(dict(op='begin_indep'))
+                base_n = p.m.numrecs
+                for rank in range(1, np):
+                    o = dict(op='put', v=rv, start=[base_n + rank - 1] + [0] * (len(sh) - 1), count=[1] + sh[1:], vals=[(rank * 7 + j + k) % 60 + 20 for j in range(inner)], coll=0, mem=D.XT_MEM[t])
+                    rcs, st = p.m.apply(o); assert 0 in rcs; p.m = st
+                    p.rc_lines.append((emit_std(p.case, rank, o, None), 0))
             p.do(dict(op='redef'))
             delta(p, dk, k, dims)
             p.do(enddef_op(dk, k))
@@ -111,9 +124,9 @@ def main(tier=None):
     b = build.build('plain')
     thorough = ck.tier == 'thorough'
     if thorough:
-        progs = gen((1, 2, 5), (1, 2, 3, 4), (None, 8, 24, 64), (0, 1, 3), list(BASES), list(ALIGN))
+        progs = gen((1, 2, 5), (1, 2, 3, 4), (None, 8, 24, 64), (0, 1, 3), list(BASES), list(ALIGN)) + gen((1, 5), (2, 3, 4), (None, 8), (0, 2), ['rec1odd', 'rec2', 'mix', 'mix1'], ['tight', 'gap'], pres=('indep_div',))
     else:
-        progs = gen((1, 5), (1, 3), (None, 8), (0, 3), ['rec1odd', 'mix', 'fixed'], ['tight']) + gen((2,), (2, 4), (24,), (1,), ['rec2', 'mix1'], ['default'], reps=(2,)) + gen((1,), (1, 2), (None,), (3,), ['mix', 'mix1'], ['gap'], reps=(1,))
+        progs = gen((1, 5), (1, 3), (None, 8), (0, 3), ['rec1odd', 'mix', 'fixed'], ['tight']) + gen((2,), (2, 4), (24,), (1,), ['rec2', 'mix1'], ['default'], reps=(2,)) + gen((1,), (1, 2), (None,), (3,), ['mix', 'mix1'], ['gap'], reps=(1,)) + gen((1,), (2, 3), (None, 8), (2,), ['rec1odd', 'mix'], ['tight'], reps=(1, 2), pres=('indep_div',))
     progs += gen_abort((1, 2, 5) if thorough else (1, 5), (1, 2, 3) if thorough else (1, 2))
     results = runner.run_cases(b['vx'], [p.case for p in progs], batch=40)
     moved = 0
@@ -137,7 +150,7 @@ def main(tier=None):
             except cdf.CDFError: pass
     ck.cov['distinct_nontrivial'] = len(ck.outcomes)
     ck.cov['rule'] = ('base layouts {fixed only, one odd-sized record variable, two record variables, fixed/record mixes} x records {0,1,3} x alignment {default,tight} x deltas {small attribute, large attribute (header outgrows extent), '
-                      'new fixed variable, new record variable, all three, larger minfree/alignment via ncmpi__enddef} applied once and twice x formats x np 1-4 x PNETCDF_VERIF_MOVE_UNIT {unset,8,24,64}; every existing element is read back '
+                      'new fixed variable, new record variable, all three, larger minfree/alignment via ncmpi__enddef} applied once and twice x formats x np 1-4 x PNETCDF_VERIF_MOVE_UNIT {unset,8,24,64} x {redef from collective mode, redef entered directly from independent mode after the higher ranks appended records (per-process record counts differ)}; every existing element is read back '
                       'through the API after each enddef and after reopen, and the decoded file is compared with the model; abort after redef must leave the file byte-identical, abort of a new file must remove it; '
                       'distinct_nontrivial = distinct variable-offset layouts reached')
     ck.sample(progs[0].case.text()[:1500]); ck.sample(progs[len(progs) // 3].case.text()[:1500])
